@@ -13,8 +13,8 @@ EXPLANATION = (
     "extracted name-generation and name-parsing terms are evaluated on sample identifiers / paths (string semantics "
     "interpreted by the analyser) including the export->import composition. Library calls on the path are checked "
     "against the installed pandas.")
-ASSUMPTIONS = TRUSTED + ["the sequential half-set renumbering loop of parse_subtomo_id and the STAR text round trip (C02) "
-                         "are not decided here; gimbal-lock behaviour of SciPy's as_euler is trusted"]
+ASSUMPTIONS = TRUSTED + ["the STAR text round trip (C02) "
+                         "is not decided here; gimbal-lock behaviour of SciPy's as_euler is trusted"]
 
 CLS = "cryomotl.RelionMotl"
 VERSIONS = (3.0, 3.1, 4.0)
@@ -259,8 +259,147 @@ def o37(ctx):
     ctx.count(total, {"functions": len(quals), "library call sites checked": total})
 
 
+# ------------------------------------------------------------------------------------------------ half-set renumbering loop
+class _X(ast.NodeVisitor):
+    """expression -> term over the symbols `s` (rlnRandomSubset of the current row), `s0` (of the first row) and `c` (the running
+    number); H is the name bound to the per-row half-set code"""
+
+    def __init__(self, hname, hterm, cname, ivar):
+        self.hname, self.hterm, self.cname, self.ivar = hname, hterm, cname, ivar
+
+    def tr(self, n):
+        if isinstance(n, ast.Constant):
+            return const(n.value)
+        if isinstance(n, ast.Name):
+            if n.id == self.cname:
+                return sym("c")
+            raise Unsupported("name not modelled in the half-set loop: " + n.id, n)
+        if isinstance(n, ast.Subscript) and isinstance(n.value, ast.Name) and n.value.id == self.hname:
+            if isinstance(n.slice, ast.Constant) and n.slice.value == 0:
+                return tm.subst(self.hterm, {sym("s"): sym("s0")})
+            if isinstance(n.slice, ast.Name) and n.slice.id == self.ivar:
+                return self.hterm
+            raise Unsupported("half-set code read at an unexpected index", n)
+        if isinstance(n, ast.BinOp):
+            op = {ast.Add: "add", ast.Sub: "sub", ast.Mult: "mul", ast.Mod: "mod", ast.FloorDiv: "floordiv", ast.Div: "div"}.get(type(n.op))
+            if op is None:
+                raise Unsupported("operator not modelled in the half-set loop", n)
+            return mk(op, self.tr(n.left), self.tr(n.right))
+        if isinstance(n, ast.Compare) and len(n.ops) == 1:
+            op = {ast.Eq: "eq", ast.NotEq: "ne", ast.Lt: "lt", ast.LtE: "le", ast.Gt: "gt", ast.GtE: "ge"}.get(type(n.ops[0]))
+            if op is None:
+                raise Unsupported("comparison not modelled in the half-set loop", n)
+            return mk(op, self.tr(n.left), self.tr(n.comparators[0]))
+        if isinstance(n, ast.BoolOp):
+            t = None
+            for v in n.values:
+                x = self.tr(v)
+                t = x if t is None else mk("and" if isinstance(n.op, ast.And) else "or", t, x)
+            return t
+        if isinstance(n, ast.UnaryOp) and isinstance(n.op, ast.Not):
+            return mk("not", self.tr(n.operand))
+        if isinstance(n, ast.IfExp):
+            return mk("ite", self.tr(n.test), self.tr(n.body), self.tr(n.orelse))
+        raise Unsupported("expression not modelled in the half-set loop: " + ast.unparse(n)[:50], n)
+
+    def block(self, body, c):
+        """running number after the statements, as a term of the number before (`c`)"""
+        for st in body:
+            if isinstance(st, ast.AugAssign) and isinstance(st.target, ast.Name) and st.target.id == self.cname and isinstance(st.op, (ast.Add, ast.Sub)):
+                inc = tm.subst(self.tr(st.value), {sym("c"): c})
+                c = mk("add" if isinstance(st.op, ast.Add) else "sub", c, inc)
+            elif isinstance(st, ast.Assign) and len(st.targets) == 1 and isinstance(st.targets[0], ast.Name) and st.targets[0].id == self.cname:
+                c = tm.subst(self.tr(st.value), {sym("c"): c})
+            elif isinstance(st, ast.If):
+                t = tm.subst(self.tr(st.test), {sym("c"): c})
+                c = mk("ite", t, self.block(st.body, c), self.block(st.orelse, c))
+            elif isinstance(st, ast.Expr) and isinstance(st.value, ast.Call) and isinstance(st.value.func, ast.Attribute) and st.value.func.attr == "append":
+                if not (st.value.args and isinstance(st.value.args[0], ast.Name) and st.value.args[0].id == self.cname):
+                    raise Unsupported("the loop must append the running number", st)
+            elif isinstance(st, (ast.Pass,)):
+                pass
+            else:
+                raise Unsupported("statement not modelled in the half-set loop: " + ast.unparse(st)[:50], st)
+        return c
+
+
+def o39(ctx):
+    """import: half-set 1 <-> odd, half-set 2 <-> even subtomogram numbers, strictly increasing down the list.  The renumbering loop is
+    a one-counter automaton: its transition c -> c' is extracted as a closed form and checked on the finite abstraction
+    (parity of c) x (half-set of the row), together with the start value"""
+    q = CLS + ".parse_subtomo_id"
+    m, fn = ctx.prog.func(q)
+    ctx.touched(q)
+    blocks = [n for n in ast.walk(fn) if isinstance(n, ast.If) and any(isinstance(x, ast.Constant) and x.value == "rlnRandomSubset" for x in ast.walk(n.test))]
+    if len(blocks) != 1:
+        raise Unsupported("half-set block of parse_subtomo_id not found", fn)
+    body = blocks[0].body
+    loops = [st for st in body if isinstance(st, ast.For)]
+    if len(loops) != 1 or not (isinstance(loops[0].iter, ast.Call) and isinstance(loops[0].iter.func, ast.Name) and loops[0].iter.func.id == "range"
+                               and isinstance(loops[0].target, ast.Name)):
+        raise Unsupported("renumbering loop not recognised", blocks[0])
+    lp = loops[0]
+    start = lp.iter.args[0] if len(lp.iter.args) >= 2 else None
+    ctx.count(1)
+    if not (isinstance(start, ast.Constant) and start.value == 1):
+        ctx.finding(q, lp, "the loop must continue with the second row (range(1, n)): the first row is handled by the start value", lp, m)
+    pre = body[:body.index(lp)]
+    # H: the per-row code derived from the rlnRandomSubset column
+    hdefs = [st for st in pre if isinstance(st, ast.Assign) and any(isinstance(x, ast.Constant) and x.value == "rlnRandomSubset" for x in ast.walk(st.value))
+             and isinstance(st.targets[0], ast.Name)]
+    if len(hdefs) != 1:
+        raise Unsupported("per-row half-set code not found", blocks[0])
+    hname = hdefs[0].targets[0].id
+
+    def hexpr(n):
+        if isinstance(n, ast.BinOp):
+            op = {ast.Mod: "mod", ast.Sub: "sub", ast.Add: "add", ast.Mult: "mul", ast.FloorDiv: "floordiv"}.get(type(n.op))
+            if op is None:
+                raise Unsupported("half-set code expression not modelled", n)
+            return mk(op, hexpr(n.left), hexpr(n.right))
+        if isinstance(n, ast.Constant):
+            return const(n.value)
+        if isinstance(n, ast.Attribute) and n.attr == "values":
+            return hexpr(n.value)
+        if isinstance(n, ast.Call) and isinstance(n.func, ast.Attribute) and n.func.attr in ("to_numpy", "astype", "copy"):
+            return hexpr(n.func.value)
+        if isinstance(n, ast.Subscript) and isinstance(n.slice, ast.Constant) and n.slice.value == "rlnRandomSubset":
+            return sym("s")
+        raise Unsupported("half-set code expression not modelled: " + ast.unparse(n)[:50], n)
+
+    hterm = hexpr(hdefs[0].value)
+    cdefs = [st for st in pre if isinstance(st, ast.Assign) and isinstance(st.targets[0], ast.Name) and st is not hdefs[0]
+             and any(isinstance(x, ast.Name) and x.id == hname for x in ast.walk(st.value))]
+    if len(cdefs) != 1:
+        raise Unsupported("start value of the running number not found", blocks[0])
+    cname = cdefs[0].targets[0].id
+    X = _X(hname, hterm, cname, lp.target.id)
+    c0 = X.tr(cdefs[0].value)
+    step = X.block(lp.body, sym("c"))
+    want_par = lambda s_: 1 if s_ == 1 else 0
+    for s0 in (1, 2):
+        v = int(tm.evaluate(c0, {"s0": float(s0), "__salt__": 0.5}))
+        ctx.count(1, {"first row half-set": s0, "start number": v})
+        if v % 2 != want_par(s0) or v < 1:
+            ctx.finding(q, cdefs[0], f"a list starting with half-set {s0} must start with an {'odd' if s0 == 1 else 'even'} number (got {v})", cdefs[0], m)
+    for c in (1, 2, 3, 4, 7, 10):
+        for s_ in (1, 2):
+            v = int(tm.evaluate(step, {"c": float(c), "s": float(s_), "s0": 1.0, "__salt__": 0.5}))
+            ctx.count(1, {"running number": c, "half-set of the row": s_, "next number": v} if c <= 2 else None)
+            if v % 2 != want_par(s_) or v <= c or v > c + 2:
+                ctx.finding(q, lp, f"after number {c}, a row of half-set {s_} must get the next {'odd' if s_ == 1 else 'even'} number "
+                            f"({c + 1 if (c + 1) % 2 == want_par(s_) else c + 2}); the loop gives {v}", lp, m, transition=tm.show(step)[:200])
+    # the renumbered list must be what is stored
+    stores = [st for st in body[body.index(lp) + 1:] if isinstance(st, ast.Assign) and isinstance(st.targets[0], ast.Subscript)
+              and isinstance(st.targets[0].slice, ast.Constant) and st.targets[0].slice.value == "subtomo_id"]
+    ctx.count(1)
+    if len(stores) != 1:
+        ctx.finding(q, blocks[0], "the renumbered list must be stored as subtomo_id", blocks[0], m)
+
+
 def _obligations():
     return [
+        Obligation("O3.9", "import: half-set renumbering automaton -- 1 <-> odd, 2 <-> even, strictly increasing (finite abstraction, exhaustive)", o39, floor=12),
         Obligation("O3.1", "export: ZYZ(rlnAngleRot,Tilt,Psi) is the inverse of the particle rotation (3.0/3.1/4.0)", o31, floor=3),
         Obligation("O3.2", "import: zxz(phi,theta,psi) is the inverse of the RELION rotation, for any order of the angle columns", o32, floor=6),
         Obligation("O3.3", "import: shift = -origin, divided by the pixel size from version 3.1", o33, floor=9),
